@@ -293,7 +293,25 @@ class Path(PathRun):
             self.block(s.finalbody)
 
     def s_With(self, s: ast.With) -> None:
-        raise Unsupported('with statement')
+        """`with lock:` on an effect sink (mutex): enter and exit are logged,
+        the exit also on an exceptional path."""
+        from .calls import sink_call
+        from .types import TSink
+        sinks = []
+        for item in s.items:
+            if item.optional_vars is not None:
+                raise Unsupported('with ... as')
+            v = self.unalias(self.eval(item.context_expr))
+            if not (isinstance(v, V) and isinstance(v.ty, TSink)):
+                raise Unsupported('with on %r' % (v,))
+            sinks.append(v)
+        for v in sinks:
+            sink_call(self, v, '__enter__', [], s)
+        try:
+            self.block(s.body)
+        finally:
+            for v in reversed(sinks):
+                sink_call(self, v, '__exit__', [], s)
 
     # ------------------------------------------------------------------ loops
     def loop_spec(self, node: ast.AST) -> dict | None:
